@@ -107,7 +107,7 @@ def doTree (l : Line) : Option String := do
   let y ← l.fs? "y"
   let par : Par Float := {
     lam := ← l.f? "lam", sigma := ← l.f? "sigma", gamma := ← l.f? "gamma",
-    radius := ← l.f? "radius", eps := ← l.f? "eps", a := 1.0, b := 1.0 }
+    radius := ← l.f? "radius", eps := ← l.f? "eps", cw := 1.0, a := 1.0, b := 1.0 }
   let g ← l.fs? "g"
   let sig ← l.fs? "sig"
   let lo ← l.fs? "lo"
@@ -161,7 +161,7 @@ def doPso (l : Line) : Option String := do
   let ys ← l.get? "y" >>= parseVecs
   let par : Par Float := {
     lam := ← l.f? "lam", sigma := ← l.f? "sigma", gamma := ← l.f? "gamma",
-    radius := ← l.f? "radius", eps := ← l.f? "eps", a := 1.0, b := 1.0 }
+    radius := ← l.f? "radius", eps := ← l.f? "eps", cw := 1.0, a := 1.0, b := 1.0 }
   let g ← l.fs? "g"
   let sig ← l.fs? "sig"
   let lo ← l.fs? "lo"
